@@ -7,5 +7,11 @@ import J5V.Props.C18
 #print axioms J5V.Props.C18.C18_total_counterexample
 #print axioms J5V.Props.C18.C18_total_partial
 #print axioms J5V.Props.C18.C18_cache_total_partial
+#print axioms J5V.Props.C18.structWitness_reflects
+#print axioms J5V.Props.C18.C18_paths_resolve_counterexample
+#print axioms J5V.Props.C18.C18_paths_resolve_partial
+#print axioms J5V.Props.C18.C18_property_describes_field
+#print axioms J5V.Props.C18.C18_flatten_terminates
+#print axioms J5V.Props.C18.C18_codec_ok_partial
 #print axioms J5V.Props.C18.C18_src_kind_switches
 #print axioms J5V.Props.C18.C18_model_kind_table
